@@ -50,14 +50,51 @@ var errExempt = []struct{ fn, callee, why string }{
 	{"FreeLaneMatchHandler).MatchHandler$1", "", "match handlers answer false on any error (C20.R3)"},
 }
 
-func exemptErr(fn *ssa.Function, callee string) (string, bool) {
-	fs := fnShort(fn)
+// exemptErr: the call sits in the exempt function or in a helper it (transitively) calls
+// ON THIS PATH: an exemption names a behaviour ("a malformed recipient becomes a refund"),
+// not the private function that currently contains the call.  frames = the functions whose
+// activations enclose the call on the path (root first).
+func exemptErr(frames []string, callee string) (string, bool) {
 	for _, e := range errExempt {
-		if strings.HasSuffix(fs, e.fn) && strings.Contains(callee, e.callee) {
-			return e.why, true
+		if !strings.Contains(callee, e.callee) {
+			continue
+		}
+		for _, fr := range frames {
+			if strings.HasSuffix(fr, e.fn) {
+				return e.why, true
+			}
 		}
 	}
 	return "", false
+}
+
+// enclosingFrames: root function plus the inlined activations open at event i.
+func enclosingFrames(root *ssa.Function, p *Path, i int) []string {
+	frames := []string{fnShort(root)}
+	for j := 0; j < i && j < len(p.Events); j++ {
+		switch ev := &p.Events[j]; ev.Kind {
+		case EvEnter:
+			frames = append(frames, ev.Call.Name)
+		case EvExit:
+			if len(frames) > 1 {
+				frames = frames[:len(frames)-1]
+			}
+		case EvCbBegin:
+			if ev.Fun != nil {
+				frames = append(frames, ev.Fun.Name)
+			} else {
+				frames = append(frames, "callback")
+			}
+		case EvCbEnd:
+			if len(frames) > 1 {
+				frames = frames[:len(frames)-1]
+			}
+		}
+	}
+	if i < len(p.Events) && p.Events[i].Fn != nil {
+		frames = append(frames, fnShort(p.Events[i].Fn))
+	}
+	return frames
 }
 
 func errorDiscipline(c *Ctx, rule, label string, fn *ssa.Function, po PO) {
@@ -116,7 +153,7 @@ func errorDiscipline(c *Ctx, rule, label string, fn *ssa.Function, po PO) {
 				}
 				// returned as the path's own error (tail call)
 				if len(p.Ret) == 0 {
-					if why, ok := exemptErr(ev.Fn, ev.Call.Name); ok {
+					if why, ok := exemptErr(enclosingFrames(fn, p, i), ev.Call.Name); ok {
 						exNotes[fnShort(ev.Fn)+" -> "+ev.Call.Name+": "+why] = true
 						continue
 					}
@@ -127,7 +164,7 @@ func errorDiscipline(c *Ctx, rule, label string, fn *ssa.Function, po PO) {
 				if ix == -1 && last.String() == ev.Call.String() || ix >= 0 && last.String() == fmt.Sprintf("%s.%d", ev.Call.String(), ix) {
 					continue
 				}
-				if why, ok := exemptErr(ev.Fn, ev.Call.Name); ok {
+				if why, ok := exemptErr(enclosingFrames(fn, p, i), ev.Call.Name); ok {
 					exNotes[fnShort(ev.Fn)+" -> "+ev.Call.Name+": "+why] = true
 					continue
 				}
